@@ -132,6 +132,8 @@ class Container(typing.Generic[Symbol]):
                     expression: Expression to be extracted and registered.
                 """
                 self.select(expression)
+                if not isinstance(expression, dsl.Predicate):  # bare boolean column/literal has no factors
+                    return
                 for table, factor in expression.factors.items():
                     self[table].factors.add(factor)
 
